@@ -123,6 +123,12 @@ impl SwiftField for Field25P {
     where
         Self: Sized,
     {
+        if !input.is_ascii() {
+            return Err(ParseError::InvalidFormat {
+                message: "Field 25P must contain only ASCII characters".to_string(),
+            });
+        }
+
         // Field25P has account on first line and BIC on second
         let lines: Vec<&str> = input.split('\n').collect();
 
@@ -201,6 +207,12 @@ impl SwiftField for Field25AccountIdentification {
     where
         Self: Sized,
     {
+        if !input.is_ascii() {
+            return Err(ParseError::InvalidFormat {
+                message: "Field 25 must contain only ASCII characters".to_string(),
+            });
+        }
+
         // Try to determine variant based on content
         // If it contains a newline or looks like it has a BIC at the end, it's Option P
         if input.contains('\n')
